@@ -484,7 +484,9 @@ func buildC02(tier string) *core.Plan {
 		}
 		ne := int64(len(eb))
 		spaces = append(spaces, core.Space{Name: "base-streams-with-empty-documents", N: ne * nl,
-			Desc: func(i int64) any { return map[string]any{"base": eb[i/nl], "layer1": l1[i%nl], "then": "every second layer"} },
+			Desc: func(i int64) any {
+				return map[string]any{"base": eb[i/nl], "layer1": l1[i%nl], "then": "every second layer"}
+			},
 			Run: func(c *core.Ctx, i int64) {
 				base, a := eb[i/nl], l1[i%nl]
 				c02History(c, "refStream-empty-docs", base, [][]c02Doc{a})
